@@ -161,7 +161,7 @@ Section CountRel.
                     | None => NErr ECallStackOverflow s
                     | Some s1 =>
                         match push_frame s1 f with
-                        | None => NErr ECallStackOverflow s1
+                        | None => NErr ECallStackOverflow s
                         | Some s2 =>
                             let depth := length (st_calls s) in
                             let unwind (x : state) :=
